@@ -49,14 +49,13 @@ func (d *driver) probe(s *spyStore, sid string, filter string) map[string]any {
 				if onlyDB >= 0 && db != onlyDB {
 					continue
 				}
-				m := srv.DB(db)
-				if !m.Exists(sid) {
+				// (independent of how the store names keys and fields, see projectRedis)
+				p := projectRedis(srv, db, sid, func(v string) bool { _, ok := d.rec.lookup("id", v); return ok },
+					func(v string) bool { _, ok := d.rec.lookup("st", v); return ok })
+				if !p.ex {
 					continue
 				}
-				out["known"], out["ex"] = true, true
-				out["auth"] = m.HGet(sid, "state") != ""
-				out["tok"] = m.HGet(sid, "id_token") != ""
-				out["ttl"] = int64(m.TTL(sid) / time.Second)
+				out["known"], out["ex"], out["auth"], out["tok"], out["ttl"] = true, true, p.auth, p.tok, p.ttl
 				return out
 			}
 		}
